@@ -500,7 +500,9 @@ def _number(n):
     k = abs(n) % 8
     if k in (0, 2):
         return n
-    if k in (1, 3):
+    if k == 1:
+        return float(n) + 0.5   # not a whole number: would not survive an integer typed buffer
+    if k == 3:
         return float(n)
     return [np.int64, np.float64, np.float32, Fraction][k - 4](n)
 
@@ -637,6 +639,7 @@ def op_df(st, op, info):
         r = call(st, op, lambda: FlodymArray.from_df(dims=ds, df=df), info)
         if info.outcome == "ret":
             info.results = [r]
+            _typed_by_import(st, r)
     else:
         t = st.slot(op.get("t", 0))
         if dims_sig(t.dims) != dims_sig(x.dims):
@@ -644,7 +647,20 @@ def op_df(st, op, info):
         info.inplace = True
         info.target = t
         info.inputs = [x] if t is not x else []
+        was_float = isinstance(t.values, np.ndarray) and t.values.dtype == np.float64
         call(st, op, lambda: t.set_values_from_df(df), info)
+        if info.outcome == "ret" and was_float:
+            _typed_by_import(st, t)
+
+
+def _typed_by_import(st, arr):
+    """the element type of an array that an import built (or refilled) is flodym's choice, not the caller's: if it is an integer or
+    single-precision type, what later happens to fractional values assigned into it is not excused as 'the caller's integer array'"""
+    if isinstance(arr, FlodymArray) and isinstance(arr.values, np.ndarray) and arr.values.dtype != np.float64:
+        if not hasattr(st, "own_int"):
+            st.own_int = []
+        st.own_int.append(arr)
+        st.probe("array_typed_by_the_import_not_float64")
 
 
 def op_split_stack(st, op, info):
